@@ -10,7 +10,7 @@ from sa.model import contains, enclosing
 from sa.variants import Variant, chain, replace_once, sub_first, sub_once
 
 from .c07 import check_cache_invalidation
-from .common import call_names, enclosing_facts, is_none_fact
+from .common import call_names, enclosing_facts, is_none_fact, vars_from_call
 
 ID = "C19"
 EXPLANATION = (
@@ -45,6 +45,7 @@ def run(ctx) -> None:
     rep.rule("C19.R5", "node metadata read by validators cannot be stale after renames", floor=1)
     rep.rule("C19.R6", "strict type validation covers every value of every data edge", floor=3)
     rep.rule("C19.R7", "the shared-output check examines every unordered pair of producers", floor=2)
+    rep.rule("C19.R11", "whether a parameter has a default / binding is decided by the has_* predicates or membership, never by comparing the value with None (None is a legitimate default)", floor=20)
     rep.rule("C19.R10", "validators quantify over all outputs of a node (emit names included): none narrows to data outputs", floor=12)
     rep.rule("C19.R9", "the Union rule of strict type checking decomposes a type into members only when that type is known to be a Union", floor=3)
     rep.rule("C19.R8", "gate-kind exhaustiveness: a test for one concrete gate class is either completed by its siblings or goes on to use something only that class has", floor=6)
@@ -235,6 +236,31 @@ def run(ctx) -> None:
 
     # ---- R8 ---------------------------------------------------------------------
     check_gate_kind_exhaustive(ctx, "C19.R8")
+
+    # ---- R11 --------------------------------------------------------------------
+    VALUE_GETTERS = {"get_signature_default_for", "get_default_for"}
+    n11 = 0
+    for f in db.all_funcs():
+        if f.module.name not in ("hypergraph.graph.validation", "hypergraph.graph._conflict", "hypergraph.graph.input_spec", "hypergraph.nodes.graph_node", "hypergraph.nodes.base", "hypergraph.nodes._callable") or f.parent is not None:
+            continue
+        n11 += 1
+        vvars = set(vars_from_call(db, f, VALUE_GETTERS))
+        for nm, ds in db.local_defs(f).items():
+            for d in ds:
+                v = getattr(d, "value", None)
+                if v is not None and any(isinstance(x, ast.Call) and isinstance(x.func, ast.Attribute) and (x.func.attr in VALUE_GETTERS or x.func.attr == "get" and src(x.func.value).endswith(("bound", "defaults"))) for x in ast.walk(v)) and not isinstance(v, ast.Compare):
+                    vvars.add(nm)
+        bad = []
+        for x in walk_local(f.node):
+            if isinstance(x, ast.Compare) and len(x.ops) == 1 and isinstance(x.ops[0], (ast.Is, ast.IsNot)) and isinstance(x.comparators[0], ast.Constant) and x.comparators[0].value is None:
+                l = x.left
+                if isinstance(l, ast.Name) and l.id in vvars:
+                    bad.append(x)
+                elif isinstance(l, ast.Call) and isinstance(l.func, ast.Attribute) and (l.func.attr in VALUE_GETTERS or l.func.attr == "get" and src(l.func.value).endswith(("bound", "defaults"))):
+                    bad.append(x)
+        rep.add("C19.R11", f"{f.qname}:presence-not-by-value", not bad, f"{f.module.rel}:{bad[0].lineno if bad else f.lineno}", "no default/bound value is compared with None to decide whether it exists" if not bad else f"'{src(bad[0])}' decides whether a default/binding exists by comparing its value with None: a parameter declared '= None' (or bound to None) counts as having none, so e.g. 'default None vs no default' for a shared parameter is no longer rejected")
+    if n11 < 20:
+        raise AnalysisError(f"only {n11} functions scanned for value-vs-presence tests")
 
     # ---- R10 --------------------------------------------------------------------
     n10 = 0
